@@ -491,6 +491,21 @@ def warn_param(ctx, cname, p, loose, dp):
                 bad.append(e)
     ctx.ob("TNT-warning", site, "%s reaches only the reported state and recommendation" % p, not bad,
            "statistic self.%s depends on the warning threshold" % (bad[0].attr if bad else ""), bad[0] if bad else None)
+    # (iii') the logs and recommendations that the warning decision writes are write-only for the statistics and for the drift
+    # decision: a statistic (or an alarm) that reads what an earlier warning left there (e.g. "a recommendation is open") depends
+    # on the warning threshold through the history, although no term of this update mentions the parameter
+    logm = lambda a: a[0] == "attr" and a[1] in LOGS
+    back = []
+    for e in tr.events:
+        if e.kind in ("store", "mutate") and e.attr not in LOGS and e.attr not in CARRIERS.get(cname, ()):
+            if e.attr == "_drift_state" and e.d.get("value") == const("warning"):
+                continue
+            if (isinstance(e.d.get("value"), T.R) and T.mentions(e.value, logm)) or any(T.mentions(pc.cond, logm) for pc in e.pc):
+                back.append(e)
+    ctx.ob("TNT-warning", site, "no statistic and no drift decision reads a log or recommendation left by earlier updates (they depend on %s through earlier warnings)" % p,
+           not back, "self.%s is computed from / guarded by the stored %s" % (
+               back[0].attr if back else "", sorted({a[1] for e in back[:1] for t in [e.d.get("value")] + [pc.cond for pc in e.pc] if isinstance(t, T.R) for a in T.walk(t) if logm(a)})),
+           back[0] if back else None)
     trw = ctx.trace(cname, "update", assume=dict({"_drift_state": "warning"}, **cell), nonnull=NONNULL[cname])
     diff = []
     for a in sorted(set(tr.final.attrs) | set(trw.final.attrs)):
